@@ -5496,10 +5496,23 @@ class Entity(object, metaclass=EntityMeta):
         cache = obj._session_cache_
         assert cache is not None and cache.is_alive and not cache.saved_objects
         with cache.flush_disabled():
+            obj._before_save_principals_({obj})  # new objects that _save_() will insert first get their hook too
             obj._before_save_() # should be inside flush_disabled to prevent infinite recursion
                                 # TODO: add to documentation that flush is disabled inside before_xxx hooks
             obj._save_()
         cache.call_after_save_hooks()
+    def _before_save_principals_(obj, seen):
+        status = obj._status_
+        if status == 'created': attrs = obj._attrs_with_columns_
+        elif status == 'modified': attrs = obj._attrs_with_bit_(obj._attrs_with_columns_, obj._wbits_)
+        else: return
+        for attr in attrs:
+            if not attr.reverse: continue
+            val = obj._vals_[attr]
+            if val is not None and val._status_ == 'created' and val not in seen:
+                seen.add(val)
+                val._before_save_principals_(seen)
+                val._before_save_()
     def _before_save_(obj):
         status = obj._status_
         if status == 'created': obj.before_insert()
